@@ -319,6 +319,50 @@ func c01eIf(c *Ctx, splitFn, sbe *ssa.Function) {
 	}
 	running := tCons == 1 && tElif == 1
 	var runningPhi *ssa.Phi
+	// the case a (call, alternative of its failure operand) belongs to is read off the guards
+	type caseFlags struct{ hasElif, noElif, elseNil, elseNonNil, lastElif, notLastElif bool }
+	flagsOf := func(must []string) caseFlags {
+		var f caseFlags
+		for _, l := range must {
+			switch {
+			case strings.HasPrefix(l, "+(0 < builtin:len(phi(") && strings.Contains(l, "elifChunks"):
+				f.hasElif = true
+			case strings.HasPrefix(l, "-(0 < builtin:len(phi(") && strings.Contains(l, "elifChunks"):
+				f.noElif = true
+			case strings.HasPrefix(l, "+(phi(") && strings.HasSuffix(l, " == nil)") && strings.Contains(l, "elseChunk"):
+				f.elseNil = true
+			case strings.HasPrefix(l, "-(phi(") && strings.HasSuffix(l, " == nil)") && strings.Contains(l, "elseChunk"):
+				f.elseNonNil = true
+			case strings.HasPrefix(l, "+(builtin:len(phi(") && strings.Contains(l, ")-1 == phi("):
+				f.lastElif = true
+			case strings.HasPrefix(l, "-(builtin:len(phi(") && strings.Contains(l, ")-1 == phi("):
+				f.notLastElif = true
+			}
+		}
+		return f
+	}
+	// chainOK: the value is the entry id left by the wiring of an elif condition (or the -1 it starts with)
+	chainOK := func(v ssa.Value) bool {
+		var leaves []ssa.Value
+		phiLeaves(v, map[ssa.Value]bool{}, &leaves)
+		ok := len(leaves) > 0
+		for _, lf := range leaves {
+			if k, isC := intConst(lf); isC && k == -1 {
+				continue
+			}
+			ex, isEx := lf.(*ssa.Extract)
+			if !isEx || ex.Index != 2 {
+				ok = false
+				continue
+			}
+			inner, isCall := ex.Tuple.(*ssa.Call)
+			if !isCall || callee(inner) != sbe || !strings.HasPrefix(c.term(fn, inner.Call.Args[0]), "$0.ElifConsequences[") {
+				ok = false
+			}
+		}
+		return ok
+	}
+	covered := map[string]bool{}
 	// classify the condition calls
 	nCons, nElif := 0, 0
 	var entryVals []ssa.Value
@@ -329,25 +373,6 @@ func c01eIf(c *Ctx, splitFn, sbe *ssa.Function) {
 		first := c.term(fn, a[5])
 		must := c.mustLits(fn, call.Block())
 		pos := c.W.Pos(call.Pos())
-		hasElif := false
-		noElif := false
-		elseNil, elseNonNil, lastElif, notLastElif := false, false, false, false
-		for _, l := range must {
-			switch {
-			case strings.HasPrefix(l, "+(0 < builtin:len(phi(") && strings.Contains(l, "elifChunks"):
-				hasElif = true
-			case strings.HasPrefix(l, "-(0 < builtin:len(phi(") && strings.Contains(l, "elifChunks"):
-				noElif = true
-			case strings.HasPrefix(l, "+(phi(") && strings.HasSuffix(l, " == nil)") && strings.Contains(l, "elseChunk"):
-				elseNil = true
-			case strings.HasPrefix(l, "-(phi(") && strings.HasSuffix(l, " == nil)") && strings.Contains(l, "elseChunk"):
-				elseNonNil = true
-			case strings.HasPrefix(l, "+(builtin:len(phi(") && strings.Contains(l, ")-1 == phi("):
-				lastElif = true
-			case strings.HasPrefix(l, "-(builtin:len(phi(") && strings.Contains(l, ")-1 == phi("):
-				notLastElif = true
-			}
-		}
 		c.Check(first == "-1" && c.term(fn, a[1]) == "$4", name+"/condition-call/first-id"+fmt.Sprint(nCons+nElif), pos, "fresh first id and the shared counter", "condition call passes firstID="+first+", counter="+c.term(fn, a[1]))
 		switch {
 		case expr == "$0.Consequence.Expression":
@@ -363,33 +388,27 @@ func c01eIf(c *Ctx, splitFn, sbe *ssa.Function) {
 					runningPhi = h
 				}
 				c.Check(ok, key+"/failure(running)", pos, "if condition false -> the running failure target as left by the elif loop (entry of the first elif, or the else body / return id when there is none)", "the if condition's failure target "+pretty(fail)+" is not the value carried by the elif wiring loop")
-			case hasElif:
-				// failure = entry of the first elif condition = last value computed by the reverse loop
-				var leaves []ssa.Value
-				phiLeaves(a[3], map[ssa.Value]bool{}, &leaves)
-				ok := len(leaves) > 0
-				for _, lf := range leaves {
-					if k, isC := intConst(lf); isC && k == -1 {
-						continue
-					}
-					ex, isEx := lf.(*ssa.Extract)
-					if !isEx || ex.Index != 2 {
-						ok = false
-						continue
-					}
-					inner, isCall := ex.Tuple.(*ssa.Call)
-					if !isCall || callee(inner) != sbe || !strings.HasPrefix(c.term(fn, inner.Call.Args[0]), "$0.ElifConsequences[") {
-						ok = false
+			default:
+				// every alternative of the failure target, with the guards under which it is chosen
+				// (one call per case, or one call whose target was chosen beforehand)
+				for _, gl := range c.guardedLeaves(fn, a[3], must) {
+					f := flagsOf(gl.must)
+					t := c.term(fn, gl.v)
+					switch {
+					case f.hasElif:
+						covered["if/elif"] = true
+						c.Check(chainOK(gl.v), key+"/failure(elif)", pos, "if condition false -> entry of the first elif condition", "with elif blocks present the if condition's failure target is "+pretty(t)+", which is not the entry id computed for the elif conditions")
+					case f.noElif && f.elseNonNil:
+						covered["if/else"] = true
+						c.Check(strings.HasSuffix(t, ".id") && strings.Contains(t, "elseChunk"), key+"/failure(else)", pos, "if condition false -> else body", "without elif the failure target is "+pretty(t)+", expected the else chunk id")
+						elseID = t
+					case f.noElif && f.elseNil:
+						covered["if/none"] = true
+						c.Check(t == splitR, key+"/failure(none)", pos, "if condition false -> after the statement", "without elif/else the failure target is "+pretty(t)+", expected the return id")
+					default:
+						c.Unk(key+"/failure", pos, "cannot classify the guards of this condition call: "+strings.Join(gl.must, " "))
 					}
 				}
-				c.Check(ok, key+"/failure(elif)", pos, "if condition false -> entry of the first elif condition", "with elif blocks present the if condition's failure target is "+pretty(fail)+", which is not the entry id computed for the elif conditions")
-			case noElif && elseNonNil:
-				c.Check(strings.HasSuffix(fail, ".id") && strings.Contains(fail, "elseChunk"), key+"/failure(else)", pos, "if condition false -> else body", "without elif the failure target is "+pretty(fail)+", expected the else chunk id")
-				elseID = fail
-			case noElif && elseNil:
-				c.Check(fail == splitR, key+"/failure(none)", pos, "if condition false -> after the statement", "without elif/else the failure target is "+pretty(fail)+", expected the return id")
-			default:
-				c.Unk(key+"/failure", pos, "cannot classify the guards of this condition call: "+strings.Join(must, " "))
 			}
 		case strings.HasPrefix(expr, "$0.ElifConsequences[") && strings.HasSuffix(expr, "].Expression"):
 			nElif++
@@ -457,49 +476,46 @@ func c01eIf(c *Ctx, splitFn, sbe *ssa.Function) {
 				} else {
 					c.Unk(key+"/reverse-order", pos, "cannot find the loop index of the elif wiring loop")
 				}
-			case lastElif && elseNonNil:
-				c.Check(strings.HasSuffix(fail, ".id") && strings.Contains(fail, "elseChunk"), key+"/failure(last,else)", pos, "last elif false -> else body", "last elif failure target is "+pretty(fail)+", expected the else chunk id")
-			case lastElif && elseNil:
-				c.Check(fail == splitR, key+"/failure(last,none)", pos, "last elif false -> after the statement", "last elif failure target is "+pretty(fail)+", expected the return id")
-			case notLastElif:
-				// previous iteration's entry id (reverse order)
-				var leaves []ssa.Value
-				phiLeaves(a[3], map[ssa.Value]bool{}, &leaves)
-				ok := len(leaves) > 0
-				for _, lf := range leaves {
-					if kk, isC := intConst(lf); isC && kk == -1 {
-						continue
-					}
-					ex, isEx := lf.(*ssa.Extract)
-					if !isEx || ex.Index != 2 {
-						ok = false
-						continue
-					}
-					inner, isCall := ex.Tuple.(*ssa.Call)
-					if !isCall || callee(inner) != sbe || !strings.HasPrefix(c.term(fn, inner.Call.Args[0]), "$0.ElifConsequences[") {
-						ok = false
-					}
-				}
-				c.Check(ok, key+"/failure(chain)", pos, "elif k false -> entry of elif k+1 (computed in the previous, higher-index iteration)", "non-last elif failure target "+pretty(fail)+" is not the entry id of the following elif condition")
-				// the loop runs from len-1 downwards
-				if ph, isPhi := rootIndexPhi(a[0]); isPhi {
-					down := false
-					startsLast := false
-					for _, e := range ph.Edges {
-						et := c.term(fn, e)
-						if strings.HasSuffix(et, "-1") && strings.HasPrefix(et, "phi(") {
-							down = true
-						}
-						if strings.HasPrefix(et, "builtin:len(") && strings.HasSuffix(et, ")-1") {
-							startsLast = true
-						}
-					}
-					c.Check(down && startsLast, key+"/reverse-order", pos, "elif conditions are wired from the last one backwards", "the elif wiring loop does not run from len-1 downwards, so 'entry of the next elif' is not available when needed")
-				} else {
-					c.Unk(key+"/reverse-order", pos, "cannot find the loop index of the elif wiring loop")
-				}
 			default:
-				c.Unk(key+"/failure", pos, "cannot classify the guards of this elif condition call: "+strings.Join(must, " "))
+				sawChain := false
+				for _, gl := range c.guardedLeaves(fn, a[3], must) {
+					f := flagsOf(gl.must)
+					t := c.term(fn, gl.v)
+					switch {
+					case f.lastElif && f.elseNonNil:
+						covered["elif/last-else"] = true
+						c.Check(strings.HasSuffix(t, ".id") && strings.Contains(t, "elseChunk"), key+"/failure(last,else)", pos, "last elif false -> else body", "last elif failure target is "+pretty(t)+", expected the else chunk id")
+					case f.lastElif && f.elseNil:
+						covered["elif/last-none"] = true
+						c.Check(t == splitR, key+"/failure(last,none)", pos, "last elif false -> after the statement", "last elif failure target is "+pretty(t)+", expected the return id")
+					case f.notLastElif:
+						covered["elif/chain"] = true
+						sawChain = true
+						// previous iteration's entry id (reverse order)
+						c.Check(chainOK(gl.v), key+"/failure(chain)", pos, "elif k false -> entry of elif k+1 (computed in the previous, higher-index iteration)", "non-last elif failure target "+pretty(t)+" is not the entry id of the following elif condition")
+					default:
+						c.Unk(key+"/failure", pos, "cannot classify the guards of this elif condition call: "+strings.Join(gl.must, " "))
+					}
+				}
+				if sawChain {
+					// the loop runs from len-1 downwards
+					if ph, isPhi := rootIndexPhi(a[0]); isPhi {
+						down := false
+						startsLast := false
+						for _, e := range ph.Edges {
+							et := c.term(fn, e)
+							if strings.HasSuffix(et, "-1") && strings.HasPrefix(et, "phi(") {
+								down = true
+							}
+							if strings.HasPrefix(et, "builtin:len(") && strings.HasSuffix(et, ")-1") {
+								startsLast = true
+							}
+						}
+						c.Check(down && startsLast, key+"/reverse-order", pos, "elif conditions are wired from the last one backwards", "the elif wiring loop does not run from len-1 downwards, so 'entry of the next elif' is not available when needed")
+					} else {
+						c.Unk(key+"/reverse-order", pos, "cannot find the loop index of the elif wiring loop")
+					}
+				}
 			}
 		default:
 			c.Bad(name+"/condition-call/expr", pos, "condition call on unexpected expression "+pretty(expr))
@@ -508,7 +524,13 @@ func c01eIf(c *Ctx, splitFn, sbe *ssa.Function) {
 	if running {
 		c.Check(runningPhi != nil, name+"/condition-call-count", c.W.FuncPos(fn), "one wiring of the if condition and one of the elif conditions, sharing a running failure target", "the if condition and the elif conditions do not share one running failure target")
 	} else {
-		c.Check(nCons == 3 && nElif == 3, name+"/condition-call-count", c.W.FuncPos(fn), "three wirings of the if condition (elif / else / none) and three of the elif conditions (chain / else / none)", fmt.Sprintf("found %d if-condition and %d elif-condition wirings, expected 3 and 3 (or 1 and 1 sharing a running failure target)", nCons, nElif))
+		var missing []string
+		for _, k := range []string{"if/elif", "if/else", "if/none", "elif/chain", "elif/last-else", "elif/last-none"} {
+			if !covered[k] {
+				missing = append(missing, k)
+			}
+		}
+		c.Check(len(missing) == 0 && nCons >= 1 && nElif >= 1, name+"/condition-call-count", c.W.FuncPos(fn), "the if condition is wired for (elif / else / none) and the elif conditions for (chain / last with else / last without)", fmt.Sprintf("no wiring found for the cases %v (%d if-condition and %d elif-condition calls)", missing, nCons, nElif))
 	}
 	_ = elseID
 	_ = elifListTerm
@@ -527,7 +549,7 @@ func c01eIf(c *Ctx, splitFn, sbe *ssa.Function) {
 					if st, ok := r2.(*ssa.Store); ok && st.Addr == ssa.Value(fa) {
 						var leaves []ssa.Value
 						phiLeaves(st.Val, map[ssa.Value]bool{}, &leaves)
-						okEntry = len(leaves) == 3 || (running && len(leaves) == 1)
+						okEntry = len(leaves) == nCons && nCons >= 1
 						for _, lf := range leaves {
 							ex, isEx := lf.(*ssa.Extract)
 							if !isEx || ex.Index != 2 {
